@@ -10,6 +10,7 @@ import (
 	"os"
 	"os/exec"
 	"path/filepath"
+	"sort"
 	"strings"
 )
 
@@ -220,7 +221,12 @@ func cmdReplay(argv []string) int {
 		fmt.Println("unknown harness", v.Harness)
 		return 2
 	}
-	w, err := loadWorld("/repo", verif, []string{cfg.Pkg})
+	pkgs := []string{"in_toto"}
+	if cfg.Pkg != "in_toto" {
+		pkgs = append(pkgs, cfg.Pkg)
+	}
+	sort.Strings(pkgs)
+	w, err := loadWorld("/repo", verif, pkgs)
 	if err != nil {
 		fmt.Println("load:", err)
 		return 2
